@@ -174,7 +174,11 @@ pub fn rand_case(r: &mut Rng) -> Case {
             let mut t = point_in(r, &lo, &hi, true);
             let i = r.below(3) as usize;
             t[i] = if r.chance(0.5) { lo[i] } else { hi[i] };
+            // (f32 build: the same ladder moved up to what binary32 resolves: 1e-7 is one ulp32)
+            #[cfg(not(feature = "float"))]
             let rel = *r.pick(&[1e-7, -1e-7, 3e-8, -3e-8, 1e-9, -1e-9, 1e-12, -1e-12, 0.0, 1e-5, -1e-5, 2e-6, -2e-6]) as Float;
+            #[cfg(feature = "float")]
+            let rel = *r.pick(&[1e-4, -1e-4, 3e-5, -3e-5, 1e-6, -1e-6, 1.2e-7, -1.2e-7, 0.0, 1e-3, -1e-3, 2e-4, -2e-4]) as Float;
             t[i] += rel * s;
             let j = (i + 1 + r.below(2) as usize) % 3;
             if r.chance(0.5) { t[j] = if r.chance(0.5) { lo[j] } else { hi[j] }; if r.chance(0.5) { t[j] += rel * s; } }
@@ -241,8 +245,8 @@ fn emit(sink: &mut Sink, c: &Case) {
     all.extend_from_slice(&c.d); all.extend_from_slice(&inv); all.extend_from_slice(&bb);
     sink.push(
         format!("({}, {})", sfs(&all), if ans { "true" } else { "false" }),
-        format!("{{\"kind\":\"{}\",\"a\":{},\"b\":{},\"o\":{},\"d\":{},\"inv\":{},\"bb\":{},\"out\":{}}}",
-                KINDS[c.kind], jfs(&c.a), jfs(&c.b), jfs(&c.o), jfs(&c.d), jfs(&inv), jfs(&bb), ans),
+        format!("{{{}\"kind\":\"{}\",\"a\":{},\"b\":{},\"o\":{},\"d\":{},\"inv\":{},\"bb\":{},\"out\":{}}}",
+                f32_mark(), KINDS[c.kind], jfs(&c.a), jfs(&c.b), jfs(&c.o), jfs(&c.d), jfs(&inv), jfs(&bb), ans),
     );
 }
 
@@ -250,7 +254,8 @@ pub fn run(seed: u64, n: usize, out: &str) {
     // util::Rng::new(s) and Rng::new(s+1) are the same SplitMix64 stream one draw apart: take the state from a first
     // draw so that neighbouring seeds give unrelated case sequences
     let mut r = Rng(Rng::new(seed ^ 0xC14).next());
-    let mut sink = Sink::new(out, "C14", 400);
+    // f32 build: runner module C14f32 of Run/C14.v (the same text on the binary32 instance)
+    let mut sink = Sink::new32(out, "C14", 400);
     for c in corpus() { emit(&mut sink, &c); }
     while sink.len() < n {
         let c = rand_case(&mut r);
@@ -264,6 +269,6 @@ pub fn replay(args: &[String]) {
     let v: Vec<Float> = args.iter().map(|s| Float::from_bits(s.parse().unwrap())).collect();
     let c = Case { a: [v[0], v[1], v[2]], b: [v[3], v[4], v[5]], o: [v[6], v[7], v[8]], d: [v[9], v[10], v[11]], kind: 0 };
     let (ans, bb, inv) = eval(&c);
-    println!("{{\"kind\":\"corpus\",\"a\":{},\"b\":{},\"o\":{},\"d\":{},\"inv\":{},\"bb\":{},\"out\":{}}}",
-             jfs(&c.a), jfs(&c.b), jfs(&c.o), jfs(&c.d), jfs(&inv), jfs(&bb), ans);
+    println!("{{{}\"kind\":\"corpus\",\"a\":{},\"b\":{},\"o\":{},\"d\":{},\"inv\":{},\"bb\":{},\"out\":{}}}",
+             f32_mark(), jfs(&c.a), jfs(&c.b), jfs(&c.o), jfs(&c.d), jfs(&inv), jfs(&bb), ans);
 }
